@@ -49,7 +49,8 @@ enum
 	K_PUT,
 	K_INSERT,
 	K_DEL,
-	K_SHRINK
+	K_SHRINK,
+	K_PUT_SAME /* put the element that is already there (the caller hands in its own extra reference) */
 };
 #define NIDX 9
 #define NDI 5
@@ -114,6 +115,7 @@ static void opname(int op, sb_t *o)
 	case K_INSERT: sb_printf(o, "insert_idx(%s,%s)", ix[a >> 1], (a & 1) ? "NULL" : "elem"); break;
 	case K_DEL: sb_printf(o, "del_idx(%s,%s)", di[a / NDN], dn[a % NDN]); break;
 	case K_SHRINK: sb_printf(o, "shrink(%s)", a == 0 ? "0" : a == 1 ? "1" : "len"); break;
+	case K_PUT_SAME: sb_printf(o, "put_idx(%s, the element already there)", a ? "len-1" : "0"); break;
 	}
 }
 static void *fresh(void)
@@ -274,6 +276,23 @@ static void apply(void *vs, int op, int check)
 		}
 		break;
 	}
+	case K_PUT_SAME:
+	{
+		if (!s->len)
+			break;
+		size_t i = a ? (size_t)s->len - 1 : 0;
+		struct json_object *e = json_object_array_get_idx(s->arr, i);
+		if (!e)
+			break;
+		/* the array's reference is released, the caller's extra one is taken: nothing is destroyed */
+		int rc = json_object_array_put_idx(s->arr, i, json_object_get(e));
+		if (rc != 0)
+		{
+			fail(s, "put-insert-failed", "%s returned %d", what, rc);
+			return;
+		}
+		break;
+	}
 	case K_DEL:
 	{
 		size_t i = deli_arg(s, a / NDN);
@@ -351,6 +370,11 @@ static int menu(void *vs, int *ops, int cap)
 	}
 	for (int a = 0; a < NDI * NDN; a++)
 		ops[n++] = (K_DEL << 8) | a;
+	if (s->len)
+	{
+		ops[n++] = (K_PUT_SAME << 8) | 0;
+		ops[n++] = (K_PUT_SAME << 8) | 1;
+	}
 	for (int a = 0; a < 3; a++)
 		ops[n++] = (K_SHRINK << 8) | a;
 	return n;
